@@ -55,6 +55,9 @@ class Fn:
         self.lemmas = kw.pop("lemmas", [])
         self.hints = kw.pop("hints", {})
         self.expect_paths = kw.pop("expect_paths", None)
+        self.proof = kw.pop("proof", True)           # False: contract evaluated concretely only (bounded stand-in)
+        self.c_ensures = kw.pop("c_ensures", [])     # clauses evaluated only concretely (use spec functions without a logical definition)
+        self.c_raises = kw.pop("c_raises", {})
         self.abstract = kw.pop("abstract", False)    # contract only (callee not verified: listed as assumption)
         self.params = kw.pop("params", None)         # for abstract contracts: parameter names
         if kw:
